@@ -178,13 +178,27 @@ def explore(ctx):
     lines, reals = [], []
     total = dict(n=0, agree=0, dist={}, outcomes={}, nfind={}, findings=[], mism=[], mism_more=0, distinct=set(),
                  nontriv=set(), samples=[], sampled=set(), execs=0, selfov=0)
+    skipped = set()
     for dev, pc, labels, op, b1, b2 in cases:
         bench = benches[dev]
         W, AW = widths(dev)
         AM = 1 << AW
-        bench.put(pc, [op, b1, b2])
-        # cells actually in memory at pc, pc+1, pc+2 (an address aliases when the space has fewer than 3 cells: never)
-        cells = [bench.mem[(pc + i) & bench.am] for i in range(3)]
+        try:
+            bench.put(pc, [op, b1, b2])
+            # cells actually in memory at pc, pc+1, pc+2 (an address aliases when the space has fewer than 3 cells: never)
+            cells = [bench.mem[(pc + i) & bench.am] for i in range(3)]
+        except Exception as ex:  # noqa: B902 -- the memory that spans the address space itself raised
+            ks = json.dumps(dict(kind='memory-raised'))
+            total['nfind'][ks] = total['nfind'].get(ks, 0) + 1
+            if total['nfind'][ks] <= 2:
+                total['findings'].append(dict(
+                    key=dict(kind='memory-raised'),
+                    what='%s pc=%d: ObservableMemory(addrWidth=%d), which spans the address space, raised %s: %s on an '
+                         'item access at $%x..$%x (disassembling there cannot be total)' % (
+                             dev, pc, AW, type(ex).__name__, ex, pc & bench.am, (pc + 2) & bench.am),
+                    replay=dict(case=[dev, pc, list(map(list, labels)), op, b1, b2], real='raised')))
+            skipped.add(len(lines) + len(skipped))
+            continue
         bench.set_labels(labels)
         re_ = bench.run(pc)
         lines.append(ac.dis_line(dev, pc, labels, *cells))
@@ -234,6 +248,7 @@ def explore(ctx):
             total['sampled'].add(cls)
             total['samples'].append(dict(device=dev, pc=pc, cells=cells, labels=dict(labels), real=re_, text=text))
     model = run_driver(lines)
+    cases = [c for i, c in enumerate(cases) if i not in skipped]
     for (dev, pc, labels, op, b1, b2), ln, mo, re_ in zip(cases, lines, model, reals):
         if mo == re_:
             total['agree'] += 1
